@@ -440,6 +440,61 @@ func family(rng *rand.Rand, out []cPattern) []cPattern {
 	return out
 }
 
+// longScheme returns a scheme of exactly n bytes (a letter, then letters, digits, '+', '-', '.').
+func longScheme(rng *rand.Rand, n int) string {
+	const rest = "abcdefghijklmnopqrstuvwxyz0123456789+-."
+	b := make([]byte, n)
+	for i := range b {
+		if i == 0 {
+			b[i] = ldh[rng.Intn(26)]
+		} else {
+			b[i] = rest[rng.Intn(len(rest))]
+		}
+	}
+	return string(b)
+}
+
+// padHost returns a subdomain of base whose length (a trailing full stop not counted) is exactly total, or "".
+func padHost(rng *rand.Rand, base string, total int) string {
+	need := total - len(strings.TrimSuffix(base, ".")) - 1
+	if need < 1 {
+		return ""
+	}
+	var parts []string
+	for need > 0 {
+		l := min(63, need)
+		if need-l == 1 {
+			l--
+		}
+		if l < 1 {
+			return ""
+		}
+		parts = append(parts, randLabel(rng, l))
+		need -= l
+		if need > 0 {
+			need--
+		}
+	}
+	return strings.Join(parts, ".") + "." + base
+}
+
+// extremeFamily: patterns at the documented size limits, all at once - the longest scheme (64 bytes, and 63), the longest host
+// (253 bytes, with and without the full stop of an absolute domain name), five-digit and arbitrary ports, exact and wildcard.
+func extremeFamily(rng *rand.Rand, out []cPattern) []cPattern {
+	sc := longScheme(rng, 64-rng.Intn(2))
+	long := randLabel(rng, 63) + "." + randLabel(rng, 63) + "." + randLabel(rng, 63) + "." + randLabel(rng, 61)
+	short := randLabel(rng, 1+rng.Intn(8)) + "." + tlds[rng.Intn(len(tlds))]
+	out = append(out,
+		cPattern{Scheme: sc, Host: long + ".", Port: 10000 + rng.Intn(55536)},
+		cPattern{Scheme: sc, Host: long, Port: anyPort},
+		cPattern{Scheme: longScheme(rng, 64), Host: long + ".", Port: anyPort},
+		cPattern{Scheme: sc, Wild: true, Host: short + ".", Port: anyPort},
+		cPattern{Scheme: longScheme(rng, 64), Wild: true, Host: short, Port: 65535},
+		cPattern{Scheme: "https", Wild: true, Host: short + ".", Port: 10000 + rng.Intn(55536)},
+	)
+	return out
+}
+
 func ipPatterns(rng *rand.Rand, out []cPattern) []cPattern {
 	n := 1 + rng.Intn(3)
 	for i := 0; i < n; i++ {
@@ -485,6 +540,9 @@ func nearMisses(rng *rand.Rand, p cPattern, out []cOrigin) []cOrigin {
 			l1+p.Host,              // left-extended without dot
 			"a."+l1+p.Host,         // subdomain of the dot-less extension
 		)
+		if h := padHost(rng, p.Host, 253); h != "" { // the longest host the pattern denotes
+			hosts = append(hosts, h)
+		}
 		if len(p.Host) > 2 {
 			hosts = append(hosts, l1+"."+p.Host[1:]) // base truncated on the left
 			hosts = append(hosts, l1+"."+p.Host[:len(p.Host)-1])
@@ -558,8 +616,11 @@ func cmdC01Rand(args []string) {
 	var liveH http.Handler
 	var prevAllowed []cOrigin
 	var samples []any
-	for probes < *n {
+	for iter := 0; probes < *n; iter++ {
 		var pats []cPattern
+		if iter%6 == 0 {
+			pats = extremeFamily(rng, pats)
+		}
 		for k := 1 + rng.Intn(4); k > 0; k-- {
 			if rng.Intn(5) == 0 {
 				pats = ipPatterns(rng, pats)
